@@ -5,10 +5,10 @@ SPEC = {
     "runners": [{
         "kind": "wqcases", "module": "CorrC14", "harness": "wqscript", "prop": "C14",
         "corr": "Run/CorrC14.v + Run/CorrWQ.v (model of the work queue vs /repo/workqueue, scripted schedules)",
-        "rule": "scripted: each case = one script with 0..n Errors() subscriptions before and during processing, work completions with nil or distinct error values (pointer identity is what the subscriber-side comparison uses), and subscriber receives issued one at a time as non-blocking receives at quiescent moments; run on the real queue and replayed in Coq on Model/WQ.v with all internal interleavings; observed = the value each receive returns (which error, nothing, nil, foreign), started work functions, WorkItems(). distinct = by (W, L, stimuli); corpus scripts call Errors() again while an earlier error still waits for a subscriber that has not started reading (the call must return, other work must complete, the late channel gets nothing of that fan-out); every synchronous API call runs under a watchdog (not returned at a quiescent moment = violation). non-trivial = some work function returned an error.",
+        "rule": "scripted: each case = one script with 0..n Errors() subscriptions before and during processing, work completions with nil or distinct error values (pointer identity is what the subscriber-side comparison uses), and subscriber receives issued one at a time as non-blocking receives at quiescent moments; run on the real queue and replayed in Coq on Model/WQ.v with all internal interleavings; observed = the value each receive returns (which error, nothing, nil, foreign), started work functions, WorkItems(). distinct = by (W, L, stimuli); corpus scripts call Errors() again while an earlier error still waits for a subscriber that has not started reading (the call must return, other work must complete, the late channel gets nothing of that fan-out); every synchronous API call runs under a watchdog (not returned at a quiescent moment = violation). work errors are drawn from every dynamic kind of error value (pointer, struct value, integer kind, string kind, a typed nil pointer in a non-nil interface, a wrapped error, a struct with an uncomparable field; harness/internal/werr) and recognised on the subscriber side by identity / equality / tag; scripts with 8, 9, 17 subscribers (thorough up to 100) read every channel in turn. non-trivial = some work function returned an error.",
     }, {
         "kind": "wqstress", "name": "stress", "prop": "C14",
-        "rule": "free-running: each case = one queue under real scheduling (built with -race) with 0..3 subscribers registered before the work, error results for every n-th item, three lazy-subscriber runs first (a subscriber that has not started reading, one failing item, then Errors() again with a 20 s bound, ordinary work must complete meanwhile, then both channels are read); half of the runs calling Errors() again while work is running (20 s bound on the call), half of the runs registering 2-8 subscribers CONCURRENTLY (goroutines released together, before any work is enqueued); evaluated = every early subscriber received every error exactly once as the same value, no nil, late subscriber no duplicates, exactly-once/max-concurrency monitors of C04/C09, race reports; non-trivial = more items than W+L+1.",
+        "rule": "free-running: each case = one queue under real scheduling (built with -race) with 0..3 subscribers registered before the work, error results for every n-th item, twelve runs with 0, 1, 2, 7, 8, 9, 16, 17, 33, 64, 65, 100 subscribers (every channel must hold every error exactly once), three lazy-subscriber runs first (a subscriber that has not started reading, one failing item, then Errors() again with a 20 s bound, ordinary work must complete meanwhile, then both channels are read); half of the runs calling Errors() again while work is running (20 s bound on the call), half of the runs registering 2-8 subscribers CONCURRENTLY (goroutines released together, before any work is enqueued); evaluated = every early subscriber received every error exactly once as the same value, no nil, late subscriber no duplicates, exactly-once/max-concurrency monitors of C04/C09, race reports; non-trivial = more items than W+L+1.",
     }],
     "trusted": ["channels, select, sync.Map, atomics, context are modelled by contract (one step each)",
                 "quiescence detector",
